@@ -284,7 +284,7 @@ package runtime
 //@ assume oldsame(Stack.Data)
 
 //@ func InitCtx
-//@ props C01 C15 C13 C14
+//@ props C01 C15 C13 C14 C16
 //@ requires script != nil && ctx.Regs.count <= 6
 //@ modifies all(ctx)
 //@ ensures result == ctx && ctx.input == input && ctx.signal == signal && ctx.funcCall == script.FuncCall
@@ -302,10 +302,10 @@ package runtime
 // pool discipline: a task goes back to the pool zeroed - whatever fields Task has (C15)
 //@ extern sync.(*Pool).Put
 //@ modifies nothing
-//@ requires[C15,C14] p == addr(ctxPool) ==> typeis(x, *Task) && x.(*Task) != nil && zeroed(x.(*Task))
+//@ requires[C15,C14,C13,C16] p == addr(ctxPool) ==> typeis(x, *Task) && x.(*Task) != nil && zeroed(x.(*Task))
 
 //@ func GetContext
-//@ props C01 C15
+//@ props C01 C15 C13 C14 C16
 //@ modifies nothing
 //@ ensures fresh(result)
 //@ ensures result != nil && result.stackCur != nil && result.stackCur == result.stackHeader && fresh(result.stackCur)
@@ -316,7 +316,7 @@ package runtime
 //@ ensures[C15] forall k string :: !dom(result.stackCur.Data, k)
 
 //@ func PutContext
-//@ props C01 C15 C14
+//@ props C01 C15 C14 C13 C16
 //@ modifies all(ctx)
 
 //@ func (*Task).GetKeyConv2Str
